@@ -39,6 +39,10 @@ func deepSegs() []deepSeg {
 	}
 	// diamond: Top -> L1 -> L5 and Top -> L4 -> L5 (all pkga: both reference forms everywhere)
 	segs = append(segs, deepSeg{kind: "diamond", radix: []int{nDeco, len(c19Leaves), 2, 3, 2, 3, 2, 3, 2, 3}})
+	// homonyms: pkga/P and pkgb/P (different bodies) both in one definition, each reachable by its
+	// unqualified name from inside its own package: deco, order of Top's fields, (form, arr) of
+	// Top->pkga/P, arr of Top->pkgb/Q, (form, arr) of pkgb/Q->pkgb/P
+	segs = append(segs, deepSeg{kind: "homonyms", radix: []int{nDeco, 2, 2, 3, 3, 2, 3}})
 	return segs
 }
 
@@ -112,6 +116,23 @@ func genDeep(i uint64) (types []gType, deco int, ok bool) {
 			l5.fields = []gField{leaf}
 			// dependency definitions deliberately not in reference order
 			return []gType{top, l5, l4, l1}, deco, true
+		case "homonyms":
+			swap := p.pick(2) == 1
+			pa, pb, q := c19Universe[1], c19Universe[2], c19Universe[3] // pkga/P, pkgb/P, pkgb/Q
+			fa := gField{name: "mine", ref: 1, form: p.pick(2)}
+			fa.arr = p.pick(3)
+			fq := gField{name: "other", ref: 3, form: 0}
+			fq.arr = p.pick(3)
+			fp := gField{name: "theirs", ref: 2, form: p.pick(2)}
+			fp.arr = p.pick(3)
+			top.fields = []gField{fa, fq}
+			if swap {
+				top.fields = []gField{fq, fa}
+			}
+			q.fields = []gField{fp}
+			pa.fields = []gField{{name: "x", prim: "int32"}}
+			pb.fields = []gField{{name: "y", prim: "string"}, {name: "z", prim: "float64", arr: 1}}
+			return []gType{top, pa, q, pb}, deco, true
 		}
 	}
 	return nil, 0, false
